@@ -196,6 +196,8 @@ Round 6 seeded changes: r6m1 (DCE's unused-initializer cleanup over all graphs w
   -demo.py): cse-merges-node-with-omitted-output (template (n), corpus finding-cse-merges-node-with-omitted-output.json).
   Committed as 87b8ce6: finding = fixed; the Coq key got the same pattern (Model.cse_key_eqb_u: which outputs are omitted, the
   identities of the empty-named outputs are a parameter `omitted` of cse / PCse; cse_pres etc. re-proved for every `omitted`).
+Final pass: m1 (CSE key drops None inputs) was again only found as a correspondence mismatch after the generator shrank: template
+  (o) = Clip on the same values with the omitted input at different positions (min vs max; trailing vs middle), results used.
 Wall time: quick ~60-110 s under load (40 specs x (22 single passes + 5 sequences) + corpus), thorough ~9-12 min (400 specs).
 """
 
@@ -1823,6 +1825,17 @@ def targeted_cases(rng, n: int):
         cases.append(({"opset": 18, "inputs": [["x3", "F112"]], "inits": [], "functions": [],
                        "nodes": pools + [N("Add", ["p1", "p2"], ["py"]), N("Neg", ["pidx"], ["pni"])], "outputs": [["py", "F112"], ["pni", "I112"]]},
                       rng.choice([["cse"], ["cse", "dce"], ["cse100"]]), rng.randrange(1 << 30)))
+        # (o) the same operator on the same values with an OMITTED input at different positions (Clip: min vs max), results used
+        cb = rng.choice([0.5, -0.25, 1.0])
+        v1 = rng.choice([["x0", "", "cb"], ["x0", "cb", ""]])
+        v2 = rng.choice([["x0", "cb"], ["x0", "cb", ""]]) if v1[1] == "" else ["x0", "", "cb"]
+        on = [N("Constant", [], ["cb"], value=["t", ["F", [cb]]]), N("Clip", v1, ["o1"]), N("Clip", v2, ["o2"])]
+        if rng.random() < 0.5:
+            on[1], on[2] = on[2], on[1]
+        on.append(N("Sub", ["o1", "o2"], ["od"]))
+        cases.append(({"opset": 18, "inputs": [["x0", "F2"]], "inits": [], "functions": [], "nodes": on,
+                       "outputs": [["od", "F2"], ["o1", "F2"], ["o2", "F2"]][:rng.choice([1, 3])]},
+                      rng.choice([["cse"], ["cse100"], ["cse", "dce"], ["dce", "cse"], ["cse", "ident"]]), rng.randrange(1 << 30)))
     return cases
 
 
